@@ -236,6 +236,125 @@ func hitShape(r *rng.R) shape {
 	return sh
 }
 
+// genWide: ONE multi-key call spanning 13..40 DIFFERENT shards of a 73-shard group (shard order unrelated to key order)
+// against short callers and single-key holders: the group comparator must order every number of groups.
+//   variant 0: order probe — a contender holds one key; the wide call parks; probes on keys of every other shard (parked
+//              probes stay, successful ones release again) must show one monotone shard order;
+//   variant 1: a writer X holds a or b, the wide Locks meets a short RLocks [a,b] (deadlock if they take a, b differently);
+//   variant 2: H holds g, A: Locks(all), B_i: RLocks [i,i+1] for several i, H unlocks.
+func genWide(r *rng.R, variant int) corr.Case {
+	K := r.Range(13, 40)
+	sh := shape{kind: "tkg", hash: r.Pick("mod", "xh", "str"), prime: 73, K: K}
+	perm := make([]int, 73)
+	for i := range perm {
+		perm[i] = i
+	}
+	for i := 72; i > 0; i-- {
+		j := r.Intn(i + 1)
+		perm[i], perm[j] = perm[j], perm[i]
+	}
+	sh.shards = append(sh.shards, perm[:K]...)
+	var list []int
+	for k := 0; k < K; k++ {
+		list = append(list, k)
+	}
+	switch variant {
+	case 0:
+		b := r.Intn(K)
+		var others []int
+		for _, k := range list {
+			if k != b {
+				others = append(others, k)
+			}
+		}
+		for len(others) > 14 {
+			i := r.Intn(len(others))
+			others = append(others[:i], others[i+1:]...)
+		}
+		sh.N = 2 + len(others)
+		mWrite := r.Chance(2, 3)
+		lines := []string{sh.init(), fmt.Sprintf("lock 0 %d", b), fmt.Sprintf("%s 1 %s", map[bool]string{true: "locks", false: "rlocks"}[mWrite], keyList(list))}
+		for i, a := range others {
+			// the probe parks if the wide call holds the key; if it gets the key it gives it back at once (answered `misuse` when it parked)
+			lines = append(lines, fmt.Sprintf("lock %d %d", 2+i, a), fmt.Sprintf("unlock %d %d", 2+i, a))
+		}
+		lines = append(lines, fmt.Sprintf("unlock 0 %d", b), "drain", "entries")
+		return corr.Case{Tag: "wide-list-order", Lines: lines}
+	case 1:
+		a := r.Intn(K - 1)
+		b := r.Range(a+1, K-1)
+		x := a
+		if r.Bool() {
+			x = b
+		}
+		sh.N = 4
+		lines := []string{sh.init(), fmt.Sprintf("lock 1 %d", x), fmt.Sprintf("locks 2 %s", keyList(list)), fmt.Sprintf("rlocks 3 %d,%d", a, b), "drain", "entries"}
+		return corr.Case{Tag: "wide-list-deadlock", Lines: lines}
+	}
+	g := r.Intn(K)
+	nb := r.Range(4, 10)
+	sh.N = 2 + nb
+	lines := []string{sh.init(), fmt.Sprintf("lock 0 %d", g), fmt.Sprintf("locks 1 %s", keyList(list))}
+	for i := 0; i < nb; i++ {
+		a := r.Intn(K - 1)
+		lines = append(lines, fmt.Sprintf("rlocks %d %d,%d", 2+i, a, a+1))
+	}
+	lines = append(lines, fmt.Sprintf("unlock 0 %d", g), "drain", "entries")
+	return corr.Case{Tag: "wide-list-many", Lines: lines}
+}
+
+// genHuge: one Locks/RLocks call with more than 4096 keys on a 1-shard generic locker; when it returns every listed key —
+// also the last ones — must be held (probes park), and the matching multi-key unlock must reclaim everything.
+func genHuge(r *rng.R, tier string) corr.Case {
+	sh := shape{kind: r.Pick("tkg", "tkg", "tkl"), hash: r.Pick("mod", "str", "xh"), prime: 1, N: 5, K: 2, shards: []int{0, 0}}
+	n := r.Range(4100, 4400)
+	if tier != "quick" {
+		n = r.Range(4100, 6400)
+	}
+	lo, hi := 48, 48+n
+	w := r.Chance(2, 3)
+	md := map[bool]string{true: "w", false: "r"}[w]
+	lines := []string{sh.init(), fmt.Sprintf("lockrange 0 %s %d %d", md, lo, hi), "entries",
+		fmt.Sprintf("lock 1 %d", hi-1), fmt.Sprintf("lock 2 %d", lo), fmt.Sprintf("lock 3 %d", lo+4096+r.Intn(n-4096)), fmt.Sprintf("counts %d", hi-1),
+		fmt.Sprintf("unlockrange 0 %s %d %d", md, lo, hi), "entries", "drain", "entries"}
+	return corr.Case{Tag: "huge-list", Lines: lines}
+}
+
+// genStressStrings: the parallel run with many distinct STRING keys hashed at the same time (xxhash routing of strings)
+func genStressStrings(r *rng.R, tier string) corr.Case {
+	sh := shape{kind: r.Pick("tkg", "tkg", "klg"), hash: "str", prime: r.PickInt(73, 73, 3), N: 2, K: r.Range(16, 24)}
+	for i := 0; i < sh.K; i++ {
+		sh.shards = append(sh.shards, r.Intn(sh.prime))
+	}
+	it := 400
+	if tier != "quick" {
+		it = r.PickInt(1000, 3000)
+	}
+	return corr.Case{Tag: "parallel-stress-strings", Lines: []string{sh.init(), fmt.Sprintf("stress %d %d", r.PickInt(8, 12, 16), it), "entries"}}
+}
+
+// genOdd: key kinds outside remap's routable domain. Pointer keys: the pointee is modified while the key is locked (the key
+// is the pointer); on group lockers remap refuses pointer and float keys before anything is locked (`unroutable`).
+func genOdd(r *rng.R) corr.Case {
+	kind := r.Pick("kl", "tkl", "klg", "tkg")
+	hash := "ptr"
+	if (kind == "klg" || kind == "tkg") && r.Bool() {
+		hash = "flt"
+	}
+	sh := shape{kind: kind, hash: hash, prime: 1, N: 3, K: 3}
+	if kind == "klg" || kind == "tkg" {
+		sh.prime = r.PickInt(1, 2, 73)
+	}
+	for i := 0; i < sh.K; i++ {
+		sh.shards = append(sh.shards, r.Intn(sh.prime))
+	}
+	lines := []string{sh.init(), "lock 0 0", "mutate 0", "lock 1 0", "rlock 2 1", "mutate 1", "lock 1 1", "lock 2 0", "unlock 0 0", "mutate 0", "drain", "entries"}
+	if kind == "tkl" || kind == "tkg" {
+		lines = append(lines[:len(lines)-2], "locks 0 0,1,2", "mutate 2", "lock 1 2", "drain", "entries")
+	}
+	return corr.Case{Tag: "odd-keys", Lines: lines}
+}
+
 // genBurst: a single-shard locker holds 1024..1500 keys at once while a few ordinary keys are held by other threads
 // (readers and a writer); the burst drains; the held keys must still exclude (probes park) and nothing may leak.
 func genBurst(r *rng.R) corr.Case {
@@ -509,7 +628,7 @@ func genMalformed(r *rng.R) corr.Case {
 	lines := []string{sh.init()}
 	bad := []string{"lock", "lock 0", "lock 0 0 0", "lock x 0", "lock 0 x", "lock 99 0", "lock 0 99", "lock -1 0", "lock 00 0", "locks 0 0,,1",
 		"locks 0 ,", "locks 0 0,99", "unlocks 0", "Lock 0 0", "counts", "counts 99", "counts x", "entries 1", "drain 0", "", "  ", "rlock 0 0 extra",
-		"runlock 0 +0", "locks 0 0;1", "burst 0 w 48", "burst 0 x 48 60", "burst 0 w 60 48", "burst 0 w 48 4000", "unburst 9 w 48 60", "stress", "stress 0 10", "stress 4", "stress 17 10", "stress 4 5001", "stress x 1", "init", "init kl mod 1", "init zz mod 1 2 1 0", "init kl mod 2 2 1 0", "init tkg mod 2 2 2 0 2", "init tkg mod 2 2 2 0",
+		"runlock 0 +0", "locks 0 0;1", "burst 0 w 48", "lockrange 0 w 48", "lockrange 0 w 48 9000", "mutate", "mutate 99", "burst 0 x 48 60", "burst 0 w 60 48", "burst 0 w 48 4000", "unburst 9 w 48 60", "stress", "stress 0 10", "stress 4", "stress 17 10", "stress 4 5001", "stress x 1", "init", "init kl mod 1", "init zz mod 1 2 1 0", "init kl mod 2 2 1 0", "init tkg mod 2 2 2 0 2", "init tkg mod 2 2 2 0",
 		"init tkg md5 2 2 2 0 1", "init tkg mod 0 2 1 0", "init tkg mod 2 0 1 0", "init tkg mod 2 17 1 0", "init tkg mod 101 2 1 0"}
 	for i := 0; i < 8; i++ {
 		switch r.Intn(3) {
@@ -652,6 +771,20 @@ func fixedCases() []corr.Case {
 	// HitGroup keys with equal Hit(): different keys, one shard — holding one must not block the other
 	out = append(out, mk("fixed-hit-keys", "init klg hit 2 4 3 1 1 0", "lock 0 0", "lock 1 1", "rlock 2 2", "lock 3 0", "unlock 0 0", "drain", "entries"),
 		mk("fixed-hit-keys", "init kl hit 1 4 3 0 0 0", "lock 0 0", "lock 1 1", "rlock 2 2", "rlock 3 2", "drain", "entries"))
+	// one call spanning many shards; one call over > 4096 keys; many string keys hashed in parallel; unroutable key kinds
+	wr := rng.New(20261001)
+	for i := 0; i < 12; i++ {
+		out = append(out, genWide(wr.Fork(uint64(i)), i%3))
+	}
+	out = append(out, mk("fixed-huge-list", "init tkg mod 1 5 2 0 0", "lockrange 0 w 48 4248", "entries", "lock 1 4247", "lock 2 48", "lock 3 4200", "counts 4247",
+		"unlockrange 0 w 48 4248", "entries", "drain", "entries"))
+	out = append(out, genStressStrings(wr.Fork(100), "quick"), genStressStrings(wr.Fork(101), "quick"))
+	for i := 0; i < 6; i++ {
+		out = append(out, genOdd(wr.Fork(uint64(200+i))))
+	}
+	out = append(out, mk("fixed-odd-keys", "init klg ptr 2 3 2 0 1", "lock 0 0", "mutate 0", "lock 1 0", "unlock 0 0", "drain", "entries"),
+		mk("fixed-odd-keys", "init tkg flt 73 3 3 1 2 3", "lock 0 0", "lock 1 1", "rlocks 2 0,1,2", "drain", "entries"),
+		mk("fixed-odd-keys", "init kl ptr 1 3 2 0 0", "lock 0 0", "mutate 0", "lock 1 0", "unlock 0 0", "mutate 0", "unlock 1 0", "entries"))
 	// an unordered nest of single locks: a real deadlock, expected (no order discipline) — both sides must report the same stuck threads
 	out = append(out, mk("fixed-unordered-deadlock", "init kl mod 1 2 2 0 0", "lock 0 0", "lock 1 1", "lock 0 1", "lock 1 0", "drain", "entries"))
 	return out
@@ -683,6 +816,9 @@ func spec() corr.Spec {
 			if i%400 == 7 { // the burst class is heavy (a thousand calls per line): a few per run
 				return genBurst(r)
 			}
+			if i%800 == 11 { // one call over > 4096 keys: very few per run
+				return genHuge(r, tier)
+			}
 			if tier == "thorough" {
 				if enumCache == nil {
 					enumCache = enumScripts(enumDepth)
@@ -700,10 +836,16 @@ func spec() corr.Spec {
 				return genLongList(r, r.Intn(4))
 			case x < 11:
 				return genStress(r, tier)
-			case x < 17:
+			case x < 16:
 				return genScriptShape(r, negShape(r), "neg-keys", true, r.Bool(), n)
-			case x < 21:
+			case x < 17:
+				return genOdd(r)
+			case x < 20:
 				return genScriptShape(r, hitShape(r), "hit-keys", true, false, n)
+			case x < 26:
+				return genWide(r, r.Intn(3))
+			case x < 28:
+				return genStressStrings(r, tier)
 			case x < 30:
 				return genScript(r, "ordered-multi", true, true, false, n)
 			case x < 50:
@@ -735,7 +877,7 @@ func spec() corr.Spec {
 			}
 			return parked && calls >= 4
 		},
-		Rule: "scripts of lock/rlock/unlock/runlock/locks/rlocks/unlocks/runlocks by 2..6 threads over 1..4 keys (long-list classes: 13..24 keys on 2..3 shards, up to 15 threads) on KeyLocker, KeyLockerGrp, TKeyLocker[int|string], TKeyLockerGrp[int|string] (modulo / xxhash routing, 1,2,3,73 shards; shard patterns: one shard, opposite to key order, random); each call runs in its own goroutine until it returns or parks (quiescence from goroutine states); thorough adds every script of <= 5 valid single-key calls by 3 threads over 2 keys on all four lockers; classes: order-respecting multi-key, single-key, hot key (1..2 keys, up to 6 threads), unordered (deadlocks allowed), malformed lines, parallel-stress (G goroutines on a fresh locker, occupancy counters per key), burst (a 1-shard locker holds 1024..1500 keys at once, then drains, beside held ordinary keys), neg-keys (negative/extreme int and int64 keys, single- and multi-key calls mixed), hit-keys (remap.HitGroup keys with equal Hit()); every script ends with drain + entries; non-trivial = some call parked and >= 4 calls ran; distinct = distinct script text",
+		Rule: "scripts of lock/rlock/unlock/runlock/locks/rlocks/unlocks/runlocks by 2..6 threads over 1..4 keys (long-list classes: 13..24 keys on 2..3 shards, up to 15 threads) on KeyLocker, KeyLockerGrp, TKeyLocker[int|string], TKeyLockerGrp[int|string] (modulo / xxhash routing, 1,2,3,73 shards; shard patterns: one shard, opposite to key order, random); each call runs in its own goroutine until it returns or parks (quiescence from goroutine states); thorough adds every script of <= 5 valid single-key calls by 3 threads over 2 keys on all four lockers; classes: order-respecting multi-key, single-key, hot key (1..2 keys, up to 6 threads), unordered (deadlocks allowed), malformed lines, parallel-stress (G goroutines on a fresh locker, occupancy counters per key), burst (a 1-shard locker holds 1024..1500 keys at once, then drains, beside held ordinary keys), neg-keys (negative/extreme int and int64 keys, single- and multi-key calls mixed), hit-keys (remap.HitGroup keys with equal Hit()), wide-list (one call over 13..40 different shards of 73), huge-list (one call over > 4096 keys), parallel-stress-strings (16..24 string keys), odd-keys (pointer keys mutated while locked; pointer/float keys are unroutable on group lockers); every script ends with drain + entries; non-trivial = some call parked and >= 4 calls ran; distinct = distinct script text",
 		Assumptions: []string{
 			"sync.RWMutex / sync.Mutex behave as documented (writer preference; a blocked writer excludes later readers); pending writers are admitted in arrival order when nothing else runs (observed, not relied upon by the theorems: the model admits any pending writer)",
 			"a runnable goroutine eventually runs; a holder eventually unlocks (premise of the deadlock clause)",
